@@ -96,6 +96,7 @@ def requests_multiset(reqs):
 def check(prop, scn, seed, models=None, skipped=None, extra_probes=None, judge_all=False):
     spec = SPECS[prop]
     probes = dict(extra_probes or {})
+    judged_all = judge_all or models is not None     # (goes into the replay file: a replay judges what the run judged)
     for k, v in (skipped or {}).items():
         probes["regenerated:" + k] = v
     if not scn["executions"]:
@@ -185,7 +186,16 @@ def check(prop, scn, seed, models=None, skipped=None, extra_probes=None, judge_a
     if res.sim.errors:
         findings.append({"property": prop, "rule": "engine-exception", "witness": None,
                          "detail": repr(res.sim.errors[0][:3])})
-    E.attach_replay(findings, scn, seed, res)
+    # A sibling branch's event that is in flight - published, not yet handled - at the very instant a fan-out failure is
+    # handled by the fan-out's own Catch: once the handler has ended the execution the 'terminated' marker is gone with the
+    # join state and the event carries on (recorded C06 finding, reached here through a tie that only the non-FIFO
+    # schedules can order that way).  What such a run appends after the end is reported under that witness.
+    if scn["config"].get("policy") != "canonical" and any(
+            mo is not None and mo.flags.cancel_tie and mo.flags.fanout_handled for mo in models.values()):
+        for f in findings:
+            if f["rule"] in ("appended-after-end", "history-terminal-event"):
+                f["witness"] = "sibling-event-in-flight-at-handled-failure"
+    E.attach_replay(findings, scn, seed, res, extra={"judge_all": judged_all})
     probes["executions"] = len(scn["executions"])
     probes["policy:" + scn["config"]["policy"] + "/" + str(scn["config"]["latency"])] = 1
     for mo in models.values():
@@ -581,7 +591,7 @@ def main_for(prop, argv, extra_items=()):
     n = spec["n_quick"] if tier == "quick" else spec["n_thorough"]
     rep = common.Report(prop)
     from checks import minimise as _MIN
-    rep.minimiser = lambda f: _MIN.scenario(f, lambda scn, seed: check(prop, scn, seed))
+    rep.minimiser = lambda f: _MIN.scenario(f, lambda scn, seed: check(prop, scn, seed, judge_all=bool(f.get("judge_all"))))
     items = list(extra_items) + list(range(n))
     if prop == "C06":
         from gen import corpus
@@ -612,7 +622,7 @@ def main_for(prop, argv, extra_items=()):
 def replay(prop, path):
     with open(path) as f:
         rec = json.load(f)
-    r = check(prop, rec["scenario"], rec["seed"])
+    r = check(prop, rec["scenario"], rec["seed"], judge_all=bool(rec.get("judge_all")))
     same = [f for f in r["findings"] if f["rule"] == rec["rule"]]
     print("replay %s: %s" % (path, "REPRODUCED rule=%s%s" % (rec["rule"], common.digest_note(rec, same)) if same else "not reproduced"))
     for f in same[:1]:
